@@ -72,6 +72,7 @@ func materialise(dir string, t *JTree, rel string, outsideDir string) error {
 		if k == "G" {
 			mode = 0o444 // generated files are written read-only
 		}
+		os.Remove(p) // (a file or link left from an earlier pass: written afresh)
 		if k == "L" {
 			if err := os.Symlink(outsideDir, p); err != nil {
 				return err
@@ -201,7 +202,17 @@ func checkRow(base string, id int, row *Row) {
 		}
 		return utils.CleanTargetDir(root)
 	}
-	for pass := 1; pass <= 2; pass++ {
+	for pass := 1; pass <= 3; pass++ {
+		if pass == 3 {
+			// the same tree written again at the same path (a regeneration cycle): cleaning it must do what it did the
+			// first time -- nothing may be remembered about paths cleaned earlier in this process
+			if row.Target.Gone {
+				break
+			}
+			if err := materialise(root, &row.Target, "", outsideDir); err != nil {
+				panic(err)
+			}
+		}
 		err := call()
 		got, exists := actualListing(root)
 		cs := map[string]any{"before": keys(before), "dot": row.Dot, "after": keys(got), "expected": keys(want), "pass": pass, "target_exists": exists}
@@ -241,6 +252,8 @@ func checkRow(base string, id int, row *Row) {
 			}
 			if pass == 2 {
 				key += "/second-pass"
+			} else if pass == 3 {
+				key += "/same-path-again"
 			}
 			violation(key, fmt.Sprintf("after cleaning: %v, specification: %v (before: %v)", keys(got), keys(want), keys(before)), cs)
 			return
@@ -362,6 +375,7 @@ func main() {
 	base := flag.String("base", "", "scratch directory on a real file system")
 	seed := flag.Int64("seed", 1, "")
 	n := flag.Int("n", 100, "")
+	nworkers := flag.Int("workers", 12, "trees cleaned side by side (independent directories)")
 	flag.Parse()
 	out = bufio.NewWriterSize(os.Stdout, 1<<20)
 	defer out.Flush()
@@ -379,7 +393,7 @@ func main() {
 			row *Row
 		}, 64)
 		var wg sync.WaitGroup
-		for w := 0; w < 12; w++ {
+		for w := 0; w < *nworkers; w++ {
 			wg.Add(1)
 			go func() {
 				defer wg.Done()
